@@ -600,8 +600,9 @@ func writeDoc(text []byte) (string, error) {
 }
 
 type verdict struct {
-	discard string // non-empty: the document is outside the precondition
-	classes []string
+	discard  string // non-empty: the document is outside the precondition
+	classes  []string
+	excluded []string // open findings whose class was met (sub-check "rejections")
 }
 
 func (v *verdict) class(format string, a ...interface{}) {
